@@ -39,6 +39,47 @@ Ortho2(G, rn, ls) ==
     LET f == rn[1] t == rn[Len(rn)] IN
     IF 2 * G.x[f] + G.w[f] = 2 * G.x[t] + G.w[t] THEN Straight2(G, rn)     \* vertically aligned end points
     ELSE OrthoFrom(G, rn, 2, ls)
+\* ---- the spline router's corridor (splines.go: buildRects, rectBetweenLayers, rectVirtualNode, rectBetweenNodes).
+\* Rectangles are <<left, top, right, bottom>> in SIXTHS of the unit of G (the rectangle next to a helper node is narrowed
+\* by a third of the gap on either side).  G also needs G.pos (0-based position in the layer) and G.layers (layer l-1 as
+\* a sequence of nodes).  Ten = the constant 10 of rectVirtualNode in units of G.
+Min2(a, b) == IF a < b THEN a ELSE b
+Max2(a, b) == IF a > b THEN a ELSE b
+RectBetweenLayers6(G, l1, l2) ==
+    LET q1 == G.layers[l1 + 1]  q2 == G.layers[l2 + 1]
+        h1 == q1[1]  h2 == q2[1]  t1 == q1[Len(q1)]  t2 == q2[Len(q2)]
+    IN <<6 * Min2(G.x[h1], G.x[h2]), 6 * (G.y[h1] + G.lh[l1 + 1]), 6 * Max2(G.x[t1] + G.w[t1], G.x[t2] + G.w[t2]), 6 * G.y[t2]>>
+\* "PANIC" where the Go code indexes past the end of a layer that holds nothing but the helper node
+RectVirtualNode6(G, vn, Ten) ==
+    LET q == G.layers[G.layer[vn] + 1]  p == G.pos[vn] IN
+    IF Len(q) = 1 THEN <<"PANIC">>
+    ELSE IF p = 0 THEN LET n == q[2] IN <<6 * (G.x[vn] - Ten), 6 * G.y[n], 6 * G.x[n], 6 * (G.y[n] + G.h[n])>>
+    ELSE IF p = Len(q) - 1 THEN LET n == q[p] IN <<6 * (G.x[n] + G.w[n]), 6 * G.y[n], 6 * (G.x[vn] + Ten), 6 * (G.y[n] + G.h[n])>>
+    ELSE LET n1 == q[p]  n2 == q[p + 2]
+             d == G.x[n2] - (G.x[n1] + G.w[n1])
+         IN <<6 * (G.x[n1] + G.w[n1]) + 2 * d, 6 * G.y[n1], 6 * G.x[n2] - 2 * d, 6 * (G.y[n2] + G.h[n2])>>
+RECURSIVE BuildRects6(_, _, _, _)
+BuildRects6(G, rn, i, Ten) ==
+    IF i > Len(rn) THEN <<>>
+    ELSE LET top == rn[i - 1]  btm == rn[i]
+             here == IF G.virt[top] = 0 /\ G.virt[btm] = 0
+                     THEN << <<6 * Min2(G.x[top], G.x[btm]), 6 * (G.y[top] + G.h[top]),
+                               6 * Max2(G.x[top] + G.w[top], G.x[btm] + G.w[btm]), 6 * G.y[btm]>> >>
+                     ELSE IF G.virt[btm] = 1
+                     THEN <<RectBetweenLayers6(G, G.layer[top], G.layer[btm]), RectVirtualNode6(G, btm, Ten)>>
+                     ELSE <<RectBetweenLayers6(G, G.layer[top], G.layer[btm])>>
+         IN here \o BuildRects6(G, rn, i + 1, Ten)
+SplineStart6(G, rn) == <<6 * G.x[rn[1]] + 3 * G.w[rn[1]], 6 * (G.y[rn[1]] + G.h[rn[1]])>>
+SplineEnd6(G, rn) == LET t == rn[Len(rn)] IN <<6 * G.x[t] + 3 * G.w[t], 6 * G.y[t]>>
+\* what geom.Shortest needs of a corridor (CorridorOps!WellFormed, restated on 4-tuples) and of the two end points
+RectOK(r) == Len(r) = 4 /\ r[1] < r[3] /\ r[2] < r[4]
+CorridorOK(rs) == /\ Len(rs) >= 1 /\ \A i \in DOMAIN rs : RectOK(rs[i])
+                  /\ \A t \in 1..(Len(rs) - 1) : /\ rs[t + 1][2] = rs[t][4]
+                                                  /\ Max2(rs[t][1], rs[t + 1][1]) < Min2(rs[t][3], rs[t + 1][3])
+PointIn(p, r) == r[1] <= p[1] /\ p[1] <= r[3] /\ r[2] <= p[2] /\ p[2] <= r[4]
+SplineInputOK(G, rn, Ten) == LET rs == BuildRects6(G, rn, 2, Ten) IN
+    CorridorOK(rs) /\ PointIn(SplineStart6(G, rn), rs[1]) /\ PointIn(SplineEnd6(G, rn), rs[Len(rs)])
+
 Route2(G, e, style, ls) ==
     LET rn == RouteNodes(G, e) IN
     CASE style = "straight" -> Straight2(G, rn)
